@@ -146,7 +146,8 @@ pub fn judge(prop: &str, line: &str, imp: &str, m: &str, s: &str) -> Verdict {
     Verdict {
         impl_model: eq(imp, m),
         impl_spec: eq(imp, s),
-        model_spec: s == "-" || m == "-" || m == s || crate::cmp::model_line_eq(m, s),
+        model_spec: s == "-" || m == "-" || m == s
+            || props::compare_model_spec(prop, &r, m, s).unwrap_or_else(|| crate::cmp::model_line_eq(m, s)),
     }
 }
 
@@ -230,8 +231,8 @@ fn shrink(prop: &str, model: &str, line: &str, kind: &str) -> String {
                     }
                 }
             } else if let Ok(n) = v.parse::<i64>() {
-                for c in [n / 2, n - 1, n + 1] {
-                    if c != n && c.abs() < n.abs() {
+                for c in [n / 2, n.saturating_sub(1), n.saturating_add(1)] {
+                    if c != n && c.unsigned_abs() < n.unsigned_abs() {
                         let mut r2 = r.clone();
                         r2.set(k, c.to_string());
                         cands.push(r2.line());
